@@ -11,7 +11,22 @@ import (
 
 // FuncID returns "pkgpath.Func" or "pkgpath.Type.Method" (pointer-ness of the receiver dropped).
 // Anonymous functions are "parentID$n".
+// Canonical maps the ID of a renamed function to the name the rules know it by (filled by the
+// loader from the anchor table; empty when nothing was renamed).
+var Canonical = map[string]string{}
+
 func FuncID(fn *ssa.Function) string {
+	id := rawFuncID(fn)
+	if c, ok := Canonical[id]; ok {
+		return c
+	}
+	return id
+}
+
+// RawFuncID is the ID as spelled in the current tree.
+func RawFuncID(fn *ssa.Function) string { return rawFuncID(fn) }
+
+func rawFuncID(fn *ssa.Function) string {
 	if fn == nil {
 		return ""
 	}
@@ -41,6 +56,14 @@ func FuncID(fn *ssa.Function) string {
 
 // MethodID names a *types.Func the same way FuncID does.
 func MethodID(f *types.Func) string {
+	id := rawMethodID(f)
+	if c, ok := Canonical[id]; ok {
+		return c
+	}
+	return id
+}
+
+func rawMethodID(f *types.Func) string {
 	if f == nil {
 		return ""
 	}
